@@ -170,3 +170,31 @@ def x06(ctx):
     rnd = ctx.path("cases-b.ndjson")
     vlib.harness(["gen", "lines", ctx.seed, 3000 if q else 40000, rnd])
     vlib.exec_and_judge(ctx, "lines", rnd, "Trace_Lines", "B", sample_keys=keys)
+
+
+@ext("X07", "textfn", "Trace_Words", "regex-built text helpers: word counts, word parts, substring search ignoring whitespace, word replacement")
+def x07(ctx):
+    q = ctx.quick()
+    ml = 4 if q else 5
+    ctx.rule = ("MC: the three regex scans as step machines (one match attempt per step) for every text up to 3/4 code points over 8 slots "
+                "(space, tab, letter, combining mark, '.', CR, LF, digit) and every needle up to 2: the scan result equals the declarative "
+                "reading (whitespace-separated words with the run in front of them; word-class runs without \\w neighbours; leftmost match "
+                "of the needle up to whitespace, preferring the greedy one), earlier start positions admit no match; A: every text up to "
+                "%d/%d code points over per-family slot subsets of a 16-slot alphabet (whitespace kinds incl. NBSP, CR LF, mark, digit, "
+                "connector, multi-byte letter, regex meta characters . ( \\ * -) through the real count_words_whitespace (both modes), "
+                "split_words, find_substring_ignoring_whitespace (needles up to 2, both segmentation modes) and replace_word; B: random "
+                "texts up to 40 code points with needles cut out of the text and re-spaced. non-trivial = two words / a part in a longer "
+                "word / a match longer than the needle" % (ml, ml - 1))
+    ctx.assumptions = ["the alphabet's grapheme clusters follow the rules written in Words.tla (a mark extends anything but a control, CR LF)"]
+    vlib.mc(ctx, "MC_Words", "CONSTANTS MaxLen = %d MaxSub = 2 Slots = {1, 2, 3, 5, 7, 10, 11, 12}\nSPECIFICATION Spec\n"
+            "INVARIANTS CountInv PartsInv PartsStepInv FindStepInv FindInv\nPROPERTY Terminates\nCHECK_DEADLOCK FALSE\n" % (3 if q else 4),
+            name="MC_Words", workers=8)
+    gcfg = "CONSTANTS MaxLen = %d\nINIT Init\nNEXT Next\nCHECK_DEADLOCK FALSE\n" % ml
+    keys = ["kind", "t", "sub", "g", "found", "p", "z", "counts", "words"]
+    for fam in ("count", "split", "find", "meta", "replace"):
+        cases, n = vlib.tlc_generate(ctx, "Gen_Words", gcfg, "cases-a-%s.ndjson" % fam, env={"FAMILY": fam})
+        vlib.exec_and_judge(ctx, "textfn", cases, "Trace_Words", "A-" + fam, sample_keys=keys)
+    ctx.exhaustive = True
+    rnd = ctx.path("cases-b.ndjson")
+    vlib.harness(["gen", "textfn", ctx.seed, 4000 if q else 40000, rnd])
+    vlib.exec_and_judge(ctx, "textfn", rnd, "Trace_Words", "B", sample_keys=keys)
